@@ -57,6 +57,14 @@ type c07State struct {
 	w        *W
 	history  [][]ast.Statement // parsed history pool
 	histText []string
+	probes   []ast.Statement // fixed statements touching every text-producing helper (escaped strings, quoted names, numbers, lists, types)
+	probeRef []string        // their renderings before anything else was rendered in this process
+}
+
+var probeTexts = []string{
+	"SELECT 'a\\nb', 'it''s', 'back\\\\slash', `we ird`, \"q\", -1, 1.5e3, [1, 'x'], (1, 'y'), CAST(z AS Enum8('a\\'b' = 1)), ['p\\nq']::Array(String) AS al, 0x1F, 18446744073709551616",
+	"CREATE TABLE t (a Int8 COMMENT 'c\\nd', b Tuple(x String, `y z` Int8) DEFAULT (1, 2)) ENGINE = MergeTree ORDER BY a SETTINGS s = 'v\\n'",
+	"ALTER TABLE t DROP PARTITION ID 'p\\nq', MODIFY COLUMN c String COMMENT 'it''s'",
 }
 
 func (st *c07State) explainQuiet(s ast.Statement) (string, bool) {
@@ -205,6 +213,14 @@ func (st *c07State) c07Query(idx int, q string, desc string) {
 		}
 	}
 	w.Count("histories")
+	for pi, ps := range st.probes {
+		if Ep, ok := st.explainQuiet(ps); ok && Ep != st.probeRef[pi] {
+			w.Count("bad:history@probe")
+			w.Report(Finding{Kind: "history", Key: "history@probe", Input: fmt.Sprintf("%q", probeTexts[pi]), InputHex: hexs([]byte(probeTexts[pi])),
+				Detail: fmt.Sprintf("after rendering %q (and %d others) the fixed probe statement renders differently from its first rendering in this process\n--- first:\n%s--- now:\n%s", last, nHist-1, trunc(st.probeRef[pi], 1500), trunc(Ep, 1500))})
+			st.probeRef[pi] = Ep // report each change once
+		}
+	}
 	if E2, ok := st.explainQuiet(s0); ok && E2 != E {
 		w.Count("bad:history@same-ast")
 		w.Report(Finding{Kind: "history", Key: "history@same-ast", Input: inq, InputHex: hexs(in),
@@ -239,6 +255,14 @@ func runC07(w *W) {
 	c07UnionCorrespondence(w) // union regrouping: Lean model DC.Model.UnionGroup vs the real printer (p_c07union.go)
 	stmts, _ := loadCorpus()
 	st := &c07State{w: w}
+	for _, pt := range probeTexts { // rendered first, before anything else has been through the printer
+		if ps, _ := parseOne(pt); ps != nil {
+			if e, ok := st.explainQuiet(ps); ok {
+				st.probes = append(st.probes, ps)
+				st.probeRef = append(st.probeRef, e)
+			}
+		}
+	}
 	for _, h := range historyPool {
 		in := []byte(h)
 		obs := safeParse(in, parseBudget(in))
@@ -247,6 +271,28 @@ func runC07(w *W) {
 		}
 		st.history = append(st.history, obs.Stmts)
 		st.histText = append(st.histText, h)
+	}
+	// large renderings are history too: scratch space that is pooled or cached between calls shows once something big
+	// has been through it (strings with and without characters to escape, identifiers, aliases, numbers, lists, nesting)
+	big := strings.Repeat("line\\n'' \\\\ ", 9000) // ≈ 120 KiB of text that needs escaping
+	for _, h := range []string{
+		"SELECT '" + big + "'",
+		"SELECT '" + strings.Repeat("plain text ", 9000) + "' AS a",
+		"SELECT `" + strings.Repeat("ident_", 15000) + "`",
+		"SELECT 1 AS `" + strings.Repeat("alias ", 15000) + "`",
+		"SELECT [" + strings.Repeat("'it''s', ", 12000) + "'x']::Array(String)",
+		"SELECT CAST(x AS Enum8(" + strings.Repeat("'a\\'b' = 1, ", 8000) + "'z' = 2))",
+		"SELECT " + strings.Repeat("f(", 600) + "1" + strings.Repeat(")", 600),
+		"SELECT " + strings.Repeat("123456789, ", 20000) + "1",
+		"CREATE TABLE t (a Int8 COMMENT '" + big + "') ENGINE = Memory",
+		"SELECT 1 FORMAT " + strings.Repeat("F", 70000),
+	} {
+		in := []byte(h)
+		obs := safeParse(in, parseBudget(in))
+		if !obs.Panicked && !obs.Budget && len(obs.Stmts) > 0 {
+			st.history = append(st.history, obs.Stmts)
+			st.histText = append(st.histText, trunc(h, 80)+fmt.Sprintf("… (%d bytes)", len(h)))
+		}
 	}
 	// corpus statements with FORMAT (any kind) are history too
 	for i := 0; i < len(stmts) && len(st.history) < 400; i += 7 {
